@@ -1,4 +1,6 @@
 import RV.C06.Model
+import RV.C06.PatchText
+import RV.C06.TrigLoop
 import RV.Base.Proto
 /-
   C06 driver.  Terms / names are tokens owned by the harness:
@@ -10,6 +12,11 @@ import RV.Base.Proto
     route <fmt>      -> quads "s,p,o,g …" of route fmt (emit fmt src)  (fresh node ids start at 1000)
     diff             -> rows "A|D,s,p,o,spell …" of the patch  src → src2, as written
     apply            -> quads of  apply (read (write (diff src src2))) src
+    pdoc <-|add|remove> <0|1 = target is src2> <hid|-> <hprev|->
+                     -> the lines of serializeDoc on src, " ; "-separated:  H,id,n | H,prev,n | TX | TC | A|D,s,p,o,spell
+    pparse <line> ; <line> ; …   -> "<ok|ParserError|ValueError> | quads" of parseDoc on the quads of src;
+                     line = B | C | <head> N | <head> K (only a comment) | <head> . | <head> H <id|prev> <n> | <head> P | <head> Q s p o g
+                     (s, o: term or w<n> = `<_:bn>`;  g: U | name | w<n>)
   `store.contexts()` of the source = registered names ∪ names that carry a quad.
 -/
 open RV RV.C06 RV.Proto
@@ -78,6 +85,68 @@ def src? (ws : List String) : Option Src :=
     pure ⟨cg, dflt, (reg ++ d.map (·.2)).foldl sinsert [], d⟩
   | _ => none
 
+/-! #### round g: RDF Patch documents -/
+
+def showPTerm : PTerm → String
+  | .plain t => showTerm t | .angle l => s!"w{l}"
+def showPLabel : PLabel → String
+  | .none => "U" | .plain g => showName g | .angle l => s!"w{l}"
+def showBody : PBody → String
+  | .none => "" | .cmt => "" | .dot => "" | .hdr false h => s!",id,{h}" | .hdr true h => s!",prev,{h}" | .pfx => ",pfx"
+  | .quad s p o g => s!",{showPTerm s},{showTerm p},{showPTerm o},{showPLabel g}"
+def showLine : PLine → String
+  | .blank => "B" | .comment => "C"
+  | .cmd head body => String.ofList head ++ showBody body
+def showDoc (ls : List PLine) : String := " ; ".intercalate (ls.map showLine)
+
+def pterm? (w : String) : Option PTerm :=
+  match w.toList with
+  | 'w' :: r => (String.ofList r).toNat?.map PTerm.angle
+  | _ => (term? w).map PTerm.plain
+def plabel? (w : String) : Option PLabel :=
+  match w.toList with
+  | ['U'] => some PLabel.none
+  | 'w' :: r => (String.ofList r).toNat?.map PLabel.angle
+  | _ => (name? w).map PLabel.plain
+
+def pline? : List String → Option PLine
+  | ["B"] => some .blank
+  | ["C"] => some .comment
+  | [h, "N"] => some (.cmd h.toList .none)
+  | [h, "K"] => some (.cmd h.toList .cmt)
+  | [h, "."] => some (.cmd h.toList .dot)
+  | [h, "P"] => some (.cmd h.toList .pfx)
+  | [h, "H", k, n] => do
+    let prev ← (if k = "id" then some false else if k = "prev" then some true else none)
+    let n ← n.toNat?
+    pure (.cmd h.toList (.hdr prev n))
+  | [h, "Q", a, b, c, g] => do
+    let a ← pterm? a; let b ← term? b; let c ← pterm? c; let g ← plabel? g
+    pure (.cmd h.toList (.quad a b c g))
+  | _ => none
+
+def splitSemi (ws : List String) : List (List String) :=
+  ws.foldr (fun w acc => if w = ";" then [] :: acc else
+    match acc with
+    | [] => [[w]]
+    | a :: as => (w :: a) :: as) [[]]
+
+def plines? : List (List String) → Option (List PLine)
+  | [] => some []
+  | l :: ls => do let x ← pline? l; let xs ← plines? ls; pure (x :: xs)
+
+def optOp? : String → Option (Option POp)
+  | "-" => some none | "add" => some (some .add) | "remove" => some (some .del) | _ => none
+
+def showErr : Option PErr → String
+  | none => "ok" | some .parseError => "ParserError" | some .valueError => "ValueError"
+
+/-- what the driver runs for `emit`: for TriG the two loops of the serializer (`emitTrigLoop`, proved equal to
+    `emit .trig` in `trig_loop_refines`) -/
+def emitD : Fmt → Src → List Block
+  | .trig, s => emitTrigLoop s
+  | f, s => emit f s
+
 structure DSt where
   s1 : Src
   s2 : Src
@@ -95,14 +164,27 @@ def step (st : DSt) : List String → DSt × String
     | none => (st, "bad-op")
   | ["emit", f] =>
     match fmt? f with
-    | some f => (st, showBlocks (emit f st.s1))
+    | some f => (st, showBlocks (emitD f st.s1))
     | none => (st, "bad-op")
   | ["route", f] =>
     match fmt? f with
-    | some f => (st, showQuads (route f (emit f st.s1) 1000))
+    | some f => (st, showQuads (route f (emitD f st.s1) 1000))
     | none => (st, "bad-op")
   | ["diff"] => (st, showRows ((diff st.s1.d st.s2.d).map writeRow))
   | ["apply"] => (st, showQuads (apply (((diff st.s1.d st.s2.d).map writeRow).map readRow) st.s1.d))
+  | ["pdoc", o, tg, hid, hprev] =>
+    match optOp? o, optNat? hid, optNat? hprev with
+    | some o, some hid, some hprev =>
+      if tg = "1" then (st, showDoc (serializeDoc o (some st.s2.d) hid hprev st.s1))
+      else if tg = "0" then (st, showDoc (serializeDoc o none hid hprev st.s1))
+      else (st, "bad-op")
+    | _, _, _ => (st, "bad-op")
+  | "pparse" :: ws =>
+    match plines? ((splitSemi ws).filter (· ≠ [])) with
+    | some ls =>
+      let r := parseDoc ls st.s1.d
+      (st, showErr r.2 ++ " | " ++ showQuads r.1)
+    | none => (st, "bad-op")
   | _ => (st, "bad-op")
 
 def main : IO Unit := RV.Proto.run step (⟨emptySrc, emptySrc⟩ : DSt)
